@@ -458,3 +458,7 @@ def check(run, replay=None):
     run.require_counter("assigntorings_tables", 20)
     for rt in set(ROUTES):
         run.require_counter("built_by:" + rt, 5)
+
+
+# workloads added in seeding rounds 7-10 (DESIGN.md sections 13.9-13.12)
+LEVEL_TEXT = LEVEL_TEXT + ' Later additions: cells with one long axis and limits that put indices beyond 127.'
